@@ -6,7 +6,8 @@ A program exists in two forms:
       stmt  = ('assign', target, expr) | ('aug', name, op, expr) | ('expr', expr) | ('return', expr)
             | ('if', test, body, orelse) | ('while', test, body) | ('for', name, expr, body)
             | ('def', name, [param names], [nonlocal names], body) | ('pass',) | ('break',) | ('continue',)
-      target = name | (name, name, ...)
+      target = name | (name, name, ...) | [target, target, ...]   (a list: the targets of a chained assignment
+               t1 = t2 = ... = expr, every target a name or a tuple of names, all names distinct)
       expr  = ('lit', t) | ('name', x) | ('bin', op, l, r) | ('cmp', op, l, r) | ('un', op, a)
             | ('list', [e..]) | ('tuple', [e..]) | ('sub', e, k) | ('ext', fname, [e..]) | ('lcall', g, [e..])
       test  = 'cb' | 'cn' | 'ct'      rendered  cb() | not cn() | ct() < 1   (outcome chosen by the environment)
@@ -62,7 +63,7 @@ class _Flat:
         return len(self.exprs)
 
     def node(self, fn, **kw):
-        d = dict(kind='', fn=fn, e=0, tgt=0, op='', body=[], orelse=[], f=0, ch=[])
+        d = dict(kind='', fn=fn, e=0, tgt=0, tgts=[], op='', body=[], orelse=[], f=0, ch=[])
         d.update(kw)
         self.nodes.append(d)
         return len(self.nodes)
@@ -108,7 +109,7 @@ class _Flat:
         k = s[0]
         if k == 'assign':
             e = self.ex(fn, s[2])             # value first: evaluation order = id order
-            return self.node(fn, kind='assign', tgt=self.target(fn, s[1]), e=e)
+            return self.node(fn, kind='assign', tgts=[self.target(fn, t) for t in chain_targets(s[1])], e=e)
         if k == 'aug':
             e = self.ex(fn, s[3])
             return self.node(fn, kind='aug', tgt=self.expr(fn, kind='store', name=s[1]), op=s[2], e=e)
@@ -146,6 +147,18 @@ class _Flat:
             self.name(nm)
         f['body'] = self.block(fid, body)
         return fid
+
+
+def chain_targets(t):
+    """The targets of an assignment statement, left to right (a list in the tree form = chained assignment)."""
+    return list(t) if isinstance(t, list) else [t]
+
+
+def target_names(t):
+    out = []
+    for x in chain_targets(t):
+        out += [x] if isinstance(x, str) else list(x)
+    return out
 
 
 def _arity(p, e, out):
@@ -231,19 +244,20 @@ def r_stmt(p, n, ind, out, instr):
     k = d['kind']
     E = lambda: r_expr(p, d['e'], instr)
     if k == 'assign':
-        t = p['exprs'][d['tgt'] - 1]
-        if t['kind'] == 'store':
-            out.append('%s%s = %s' % (s, t['name'], E()))
-            if instr:
-                out.append('%s__s(%d, %s)' % (s, d['tgt'], t['name']))
+        ts = [p['exprs'][t - 1] for t in d['tgts']]
+        lhs = ' = '.join(_r_target(p, t) for t in d['tgts'])
+        if not instr:
+            out.append('%s%s = %s' % (s, lhs, E()))
         else:
-            if instr:
-                out.append('%s%s = __h(%s)' % (s, _r_target(p, d['tgt']), E()))
-                out.append('%s__sh(%d)' % (s, d['tgt']))
-                for a in t['args']:
-                    out.append('%s__s(%d, %s)' % (s, a, p['exprs'][a - 1]['name']))
-            else:
-                out.append('%s%s = %s' % (s, _r_target(p, d['tgt']), E()))
+            unpack = any(t['kind'] != 'store' for t in ts)
+            out.append('%s%s = %s' % (s, lhs, '__h(%s)' % E() if unpack else E()))
+            for tid, t in zip(d['tgts'], ts):                # the bindings happen left to right
+                if t['kind'] == 'store':
+                    out.append('%s__s(%d, %s)' % (s, tid, t['name']))
+                else:
+                    out.append('%s__sh(%d)' % (s, tid))
+                    for a in t['args']:
+                        out.append('%s__s(%d, %s)' % (s, a, p['exprs'][a - 1]['name']))
     elif k == 'aug':
         nm = p['exprs'][d['tgt'] - 1]['name']
         out.append('%s%s %s= %s' % (s, nm, d['op'], E()))
@@ -440,6 +454,90 @@ def branch_family():
 
 
 # ------------------------------------------------------------------------------------------------
+# the chained-assignment family: t1 = t2 = .. = value with every arrangement of name / tuple targets, values whose
+# type is exact, a join, a tuple shape, polymorphic or unknown (bare list), straight / in a branch / in a loop,
+# with and without typed previous bindings of the targets; every target is read afterwards
+# ------------------------------------------------------------------------------------------------
+CHN_VALUES = [
+    ('tuple', [('name', 'a'), _L('str')]),            # a: int | float - a product of types
+    ('tuple', [_L('int'), _L('float')]),
+    ('ext', 'ep', []), ('ext', 'epp', []), ('ext', 'elf', []),
+    ('tuple', [('name', 'x'), ('name', 'y')]),
+]
+CHN_TARGETS = [
+    't', ('x', 'y'),
+    ['t', ('x', 'y')], [('x', 'y'), 't'], ['t', 'u'], [('x', 'y'), ('z', 'u')], ['t', ('x', 'y'), 'u'],
+    [('x', 'y'), 't', 'u'], [('x', 'y'), 't', ('z', 'u')], ['t', 'u', ('x', 'y')],
+]
+CHN_PRE = [
+    [('assign', 'x', _L('int')), ('assign', 'y', _L('float')), ('assign', 'z', _L('int')), ('assign', 'u', _L('str')),
+     ('assign', 't', _L('str'))],
+    [('assign', 'x', _L('str')), ('assign', 'y', _L('int'))],
+]
+
+
+def chain_family():
+    for pre in CHN_PRE:
+        for value in CHN_VALUES:
+            for tg in CHN_TARGETS:
+                names = target_names(tg)
+                st = ('assign', tg, value)
+                tail = [('assign', 'v', ('name', 't'))] if 't' in names else []
+                tail.append(('return', ('tuple', [('name', n) for n in names])))
+                for kind in ('seq', 'if', 'while', 'for'):
+                    if kind == 'seq':
+                        body = [st]
+                    elif kind == 'if':
+                        body = [('if', 'cb', [st], [('assign', names[0], _L('bool'))])]
+                    elif kind == 'while':
+                        body = [('while', 'cb', [st, ('assign', 'w', ('name', names[-1]))])]
+                    else:
+                        body = [('for', 'w', ('list', [_L('int'), _L('int')]), [st])]
+                    yield dict(params=[('a', [['int'], ['float']])], body=list(pre) + body + tail)
+
+
+# ------------------------------------------------------------------------------------------------
+# the parameter family: a local function whose parameters have the names of variables of the enclosing function
+# (or not), read / copied / rebound / joined / captured by a function nested in it, called with arguments of the
+# same and of other types than the hidden variables have, which are rebound between the calls
+# ------------------------------------------------------------------------------------------------
+PAR_PARAMS = [['x'], ['p'], ['y'], ['x', 'y'], ['p', 'x']]
+PAR_ARGS = {1: [[_L('str')], [_L('float')], [('name', 'x')], [('name', 'y')]],
+            2: [[_L('str'), _L('float')], [('name', 'x'), ('name', 'y')], [('name', 'y'), ('name', 'x')],
+                [_L('float'), ('name', 'x')]]}
+
+
+def _par_bodies(ps):
+    q = ps[0]
+    allp = ('name', q) if len(ps) == 1 else ('tuple', [('name', n) for n in ps])
+    return [
+        [('return', allp)],
+        [('assign', 'v', ('name', q)), ('return', ('name', 'v'))],
+        [('return', ('tuple', [('name', ps[-1]), ('name', 'z')]))],
+        [('assign', q, _L('float')), ('return', allp)],
+        [('if', 'cb', [('assign', q, _L('str'))], []), ('return', ('name', q))],
+        [('def', 'h', [], [], [('return', ('name', q))]), ('return', ('lcall', 'h', []))],
+    ]
+
+
+def param_family(maxlen=2):
+    for ps in PAR_PARAMS:
+        calls = [('expr', ('lcall', 'g1', a)) for a in PAR_ARGS[len(ps)]]
+        calls.append(('assign', 'w', ('lcall', 'g1', PAR_ARGS[len(ps)][0])))
+        calls.append(('assign', 'w', ('lcall', 'g1', PAR_ARGS[len(ps)][2])))
+        main = calls + [('assign', 'x', _L('str')), ('if', 'cb', [('assign', 'x', _L('float'))], [])]
+        for gbody in _par_bodies(ps):
+            for n in range(1, maxlen + 1):
+                for seq in itertools.product(main, repeat=n):
+                    if not any(m in calls for m in seq):
+                        continue
+                    body = [('assign', 'x', _L('int')), ('assign', 'y', _L('float')), ('assign', 'z', _L('bool')),
+                            ('def', 'g1', list(ps), [], gbody)]
+                    yield dict(params=[('a', [['int']])],
+                               body=body + list(seq) + [('return', ('tuple', [('name', 'x'), ('name', 'y')]))])
+
+
+# ------------------------------------------------------------------------------------------------
 # random programs of the full class (closures, nonlocal, unpacking, external calls ...)
 # ------------------------------------------------------------------------------------------------
 class Gen:
@@ -448,8 +546,9 @@ class Gen:
     generated on purpose with a small probability."""
     VARS = ['x', 'y', 'z']
 
-    def __init__(self, rnd, size=10):
+    def __init__(self, rnd, size=10, rnd2=None):
         self.r = rnd
+        self.r2 = rnd2 or random.Random(0)      # chained targets / parameter names: a stream of their own
         self.budget = size
         self.nfn = 0
         self.kinds = {}
@@ -595,6 +694,10 @@ class Gen:
             e, k = self.any_expr(ctx)
             s = ('assign', v, e)
             self._bind(ctx, v, k)
+            if self.r2.random() < 0.12:                 # v = v2 = e / v2 = v = e
+                v2 = self.r2.choice([n for n in self.VARS + ['w'] if n != v])
+                self._bind(ctx, v2, k)
+                s = ('assign', [v, v2] if self.r2.random() < 0.5 else [v2, v], e)
             return [s]
         if r < 0.38:
             nv, sv = self.vars_of(ctx, 'num'), self.vars_of(ctx, 'str')
@@ -612,6 +715,10 @@ class Gen:
             vs = tuple(self.r.sample(self.VARS, cnt))
             for v in vs:
                 self._bind(ctx, v, ek)
+            if self.r2.random() < 0.35:                 # a, b = t = e / t = a, b = e
+                v2 = self.r2.choice([n for n in self.VARS + ['w'] if n not in vs])
+                self._bind(ctx, v2, 'seq')
+                return [('assign', [vs, v2] if self.r2.random() < 0.6 else [v2, vs], e)]
             return [('assign', vs, e)]
         if r < 0.55 and not deep:
             sub = dict(ctx, depth=ctx['depth'] + 1)
@@ -658,12 +765,15 @@ class Gen:
         self.nfn += 1
         name = 'g%d' % self.nfn
         params = ['p'] if self.r.random() < 0.3 else []
+        hide = sorted({v for v in ctx['mine'] + ctx['outer'] if v in self.VARS + ['a', 'b', 'w']})
+        if params and hide and self.r2.random() < 0.5:      # the parameter hides a variable of an enclosing function
+            params = [self.r2.choice(hide)]
         mine = [(g, ar) for g, ar in ctx['fns'] if g in ctx['mine']]
         redefine = bool(mine) and ctx['depth'] > 0 and self.r.random() < 0.4
         if redefine:                                  # a second definition of the same name on some path
             name, ar = self.r.choice(mine)
             params = ['p'] * ar
-        cand = sorted({v for v in ctx['mine'] + ctx['outer'] if v in self.VARS or v in ('a', 'b')})
+        cand = sorted({v for v in ctx['mine'] + ctx['outer'] if v in self.VARS or v in ('a', 'b')} - set(params))
         nl = []
         if cand and self.r.random() < 0.6:
             nl = self.r.sample(cand, self.r.randint(1, min(2, len(cand))))
@@ -690,7 +800,7 @@ class Gen:
 
 def random_program(seed, size=10):
     rnd = random.Random(seed)
-    g = Gen(rnd, size)
+    g = Gen(rnd, size, random.Random(seed * 31 + 7))
     np_ = rnd.randint(1, 2)
     params = [(nm, rnd.choice(PTYPES)) for nm in ['a', 'b'][:np_]]
     ctx = dict(vis=[nm for nm, _ in params], fns=[], inloop=False, depth=0, fdepth=0,
@@ -758,6 +868,10 @@ def _stmt_reductions(s):
             yield [('assign', s[1], x)]
         if s[2][0] == 'lcall':
             yield [('expr', s[2])]
+        if isinstance(s[1], list) and len(s[1]) > 1:          # a chained assignment loses one target
+            for i in range(len(s[1])):
+                rest = s[1][:i] + s[1][i + 1:]
+                yield [('assign', rest if len(rest) > 1 else rest[0], s[2])]
     elif k == 'aug':
         for x in _expr_reductions(s[3]):
             yield [('aug', s[1], s[2], x)]
@@ -805,7 +919,7 @@ def _valid(tree):
     def binds(body, acc):
         for s in body:
             if s[0] == 'assign':
-                acc.update([s[1]] if isinstance(s[1], str) else s[1])
+                acc.update(target_names(s[1]))
             elif s[0] in ('aug', 'for', 'def'):
                 acc.add(s[1])
             if s[0] == 'if':
@@ -820,6 +934,8 @@ def _valid(tree):
     def ok(body, inloop, enclosing):
         for s in body:
             if s[0] in ('break', 'continue') and not inloop:
+                return False
+            if s[0] == 'assign' and len(set(target_names(s[1]))) != len(target_names(s[1])):
                 return False
             if s[0] == 'if' and not (ok(s[2], inloop, enclosing) and ok(s[3], inloop, enclosing)):
                 return False
